@@ -303,14 +303,16 @@ static std::string opGetrf(Args& a){
 // RHS kinds: 'v' vector, 'r'/'c' matrix of that orientation.
 // form (how the solve expression is written and consumed; every form must yield the same X):
 //   's' x = solve(A,B,tag,side)                 'i' x = inv(A,tag) % B   resp.  B % inv(A,tag)
-//   'a' x = 0; noalias(x) += solve(...)         'b' x = 0; noalias(x) += inv-product        (plus_assign_to path)
+//   'a' x = 1; noalias(x) += solve(...); x -= 1  'b' the same with the inv-product            (plus_assign_to path)
 //   'e' operands are expressions: solve(trans(At), trans(Bt) | subrange(b'), tag, side)
 //   matrix right-hand sides only (the expression is consumed lazily, never evaluated as a whole):
 //   'r' row(solve(...),i) for every i           'j' row(inv-product,i) for every i           (matrix_row_optimizer)
 //   'p' solve(...) % e_k for every column k     'q' inv-product % e_k                        (matrix_vector_prod_optimizer)
 //   'm' x = solve(...) % I                      'n' x = inv-product % I                      (product with a dense identity)
+//   every right-hand side kind, explicit inverse evaluated as a matrix (matrix_inverse::assign_to / plus_assign_to):
+//   'x' Ainv = inv(A,tag); x = Ainv % B  resp.  B % Ainv      'y' Ainv = 1; noalias(Ainv) += inv(A,tag); Ainv -= 1; same product
 static bool formKnown(char form, bool vec){
-	if(form == 's' || form == 'i' || form == 'a' || form == 'b' || form == 'e') return true;
+	if(form == 's' || form == 'i' || form == 'a' || form == 'b' || form == 'e' || form == 'x' || form == 'y') return true;
 	if(vec) return false;
 	return form == 'r' || form == 'j' || form == 'p' || form == 'q' || form == 'm' || form == 'n';
 }
@@ -322,15 +324,23 @@ Dense frontVec(Dense const& A, Dense const& b, Tag tag, char form, int& ix){
 	// operands of form 'e' (prepared outside the measured region)
 	matrix<double, OA> at = trans(a);
 	vector<double> big(rhs.size() + 3, 7.0); for(std::size_t i = 0; i != rhs.size(); ++i) big(i + 2) = rhs(i);
-	if(form == 'a' || form == 'b') x = vector<double>(rhs.size(), 0.0);
+	// the += forms start from x = (1,...,1) (subtracted again afterwards; exact whenever the sum was exact)
+	if(form == 'a' || form == 'b') x = vector<double>(rhs.size(), 1.0);
 	Flag fl;
 	if(form == 's') x = solve(a, rhs, tag, Side());
 	else if(form == 'i'){ if(Side::is_left) x = inv(a, tag) % rhs; else x = rhs % inv(a, tag); }
 	else if(form == 'a') noalias(x) += solve(a, rhs, tag, Side());
 	else if(form == 'b'){ if(Side::is_left) noalias(x) += inv(a, tag) % rhs; else noalias(x) += rhs % inv(a, tag); }
 	else if(form == 'e') x = solve(trans(at), subrange(big, 2, 2 + rhs.size()), tag, Side());
+	else if(form == 'x' || form == 'y'){
+		matrix<double> ainv(a.size1(), a.size2(), form == 'y' ? 1.0 : 0.0);
+		if(form == 'x') ainv = inv(a, tag);
+		else{ noalias(ainv) += inv(a, tag); for(std::size_t i = 0; i != ainv.size1(); ++i) for(std::size_t j = 0; j != ainv.size2(); ++j) ainv(i, j) -= 1.0; }
+		if(Side::is_left) x = ainv % rhs; else x = rhs % ainv;
+	}
 	else throw std::runtime_error("bad-form");
 	ix = fl.read();
+	if(form == 'a' || form == 'b') for(std::size_t i = 0; i != x.size(); ++i) x(i) -= 1.0;
 	Dense X(x.size(), 1); for(std::size_t i = 0; i != x.size(); ++i) X(i, 0) = x(i);
 	return X;
 }
@@ -339,7 +349,7 @@ Dense frontMat(Dense const& A, Dense const& B, Tag tag, char form, int& ix){
 	matrix<double, OA> a; toRemora(A, a);
 	matrix<double, OB> rhs; toRemora(B, rhs);
 	std::size_t R = rhs.size1(), C = rhs.size2();
-	matrix<double, OB> x(R, C, 0.0);
+	matrix<double, OB> x(R, C, (form == 'a' || form == 'b') ? 1.0 : 0.0);
 	matrix<double, OA> at = trans(a);
 	matrix<double, OB> bt = trans(rhs);
 	matrix<double> I(C, C, 0.0); for(std::size_t k = 0; k != C; ++k) I(k, k) = 1.0;
@@ -349,6 +359,12 @@ Dense frontMat(Dense const& A, Dense const& B, Tag tag, char form, int& ix){
 	else if(form == 'a') noalias(x) += solve(a, rhs, tag, Side());
 	else if(form == 'b'){ if(Side::is_left) noalias(x) += inv(a, tag) % rhs; else noalias(x) += rhs % inv(a, tag); }
 	else if(form == 'e') x = solve(trans(at), trans(bt), tag, Side());
+	else if(form == 'x' || form == 'y'){
+		matrix<double> ainv(a.size1(), a.size2(), form == 'y' ? 1.0 : 0.0);
+		if(form == 'x') ainv = inv(a, tag);
+		else{ noalias(ainv) += inv(a, tag); for(std::size_t i = 0; i != ainv.size1(); ++i) for(std::size_t j = 0; j != ainv.size2(); ++j) ainv(i, j) -= 1.0; }
+		if(Side::is_left) x = ainv % rhs; else x = rhs % ainv;
+	}
 	else if(form == 'r'){ for(std::size_t i = 0; i != R; ++i) noalias(row(x, i)) = row(solve(a, rhs, tag, Side()), i); }
 	else if(form == 'j'){
 		for(std::size_t i = 0; i != R; ++i){
@@ -370,6 +386,7 @@ Dense frontMat(Dense const& A, Dense const& B, Tag tag, char form, int& ix){
 	else if(form == 'n'){ if(Side::is_left) x = (inv(a, tag) % rhs) % I; else x = (rhs % inv(a, tag)) % I; }
 	else throw std::runtime_error("bad-form");
 	ix = fl.read();
+	if(form == 'a' || form == 'b') for(std::size_t i = 0; i != R; ++i) for(std::size_t j = 0; j != C; ++j) x(i, j) -= 1.0;
 	return fromRemora(x);
 }
 template<class Tag, class Side, class OA>
@@ -600,8 +617,27 @@ std::string runDecomp(std::string const& cls, Dense const& A, std::vector<Req> c
 	}else if(cls == "semi"){
 		Flag fl; symm_pos_semi_definite_solver<Mat> dec(a); ix |= fl.read();
 		rest = serveRequests(dec, A, reqs, true, 1, ix);
-	}else if(cls == "eig"){
-		symm_eigenvalue_decomposition<Mat> dec(a); ix = 1;
+		// compute_inverse_factor: C (rank x n) with A^+ = C^T C.  Oracle: Moore-Penrose identity A A^+ A = A.
+		std::size_t rank = dec.rank();
+		Mat c(rank, n, 0.0);
+		{ Flag f2; dec.compute_inverse_factor(c); ix |= f2.read(); }
+		Dense C = fromRemora(c);
+		std::string bad; std::size_t pos = rest.find(" !oracle");
+		if(pos != std::string::npos){ bad = rest.substr(pos); rest = rest.substr(0, pos); }
+		if(rank) rest += showVals(C).substr(3);
+		std::ostringstream rk; rk << " rank=" << rank;
+		if(bad.empty()){
+			Dense Ap = matmul(transpose(C), C);
+			Dense AApA = matmul(matmul(A, Ap), A);
+			ld err = 0; for(std::size_t k = 0; k != AApA.a.size(); ++k){ ld e = std::fabs((ld)AApA.a[k] - (ld)A.a[k]); if(!(e <= err)) err = e; }
+			ld bound = 1e-7L * (normInf(A) * normInf(Ap) + 1) * (maxAbs(A) + 1e-300L) * (ld)(n + 1);
+			if(!(err <= bound) || !allFinite(C)) bad = " !oracle decomp-inverse-factor";
+		}
+		return "ok" + ixs(ix) + rk.str() + rest + bad;
+	}else if(cls == "eig" || cls == "eigd"){
+		symm_eigenvalue_decomposition<Mat> dec;
+		if(cls == "eigd"){ Mat g(n + 2, n + 2, 0.0); for(std::size_t i = 0; i != n + 2; ++i) g(i, i) = 1.0 + i; dec.decompose(g); }
+		dec.decompose(a); ix = 1;
 		rest = serveRequests(dec, Asym, reqs, false, 1e3, ix);
 	}else throw std::runtime_error("bad-class");
 	return "ok" + ixs(ix) + rest;
